@@ -85,7 +85,7 @@ PROPS.update({
         "assumptions": [INVERT, "packets are genuine packets of one object (an erasure code makes no promise on corrupted payloads)"],
     },
     "C02": {
-        "thm_modules": ["Rq.Thm.C02", "Rq.Thm.C02b"],
+        "thm_modules": ["Rq.Thm.C02", "Rq.Thm.C02b", "Rq.Thm.C02c"],
         "engines": [("decblk", "release"), ("decblk", "debug"), ("overhead", "release"), ("fastpath", "release"), ("fastpath", "debug"), ("solver", "release")],
         "modelled": [SOLVER],
         "assumptions": ["the counter generator_too_weak_singular_sets is raised when fewer than 10 certified singular sets were seen in a run"],
